@@ -135,6 +135,9 @@ func optTermOf(o execution.Option) string {
 		fc := map[execution.BoolOptionFormat]string{execution.BoolOptionFormatTrueFalse: "BTrueFalse", execution.BoolOptionFormatOneZero: "BOneZero", execution.BoolOptionFormatYesNo: "BYesNo", execution.BoolOptionFormatCustom: "BCustom"}[o.Bool.Format]
 		if fc == "" {
 			fc = "BUnknown"
+			if o.Bool.Format == "" {
+				fc = "BEmpty"
+			}
 		}
 		tterm = CApp("TBool", fc, CStr(o.Bool.TrueVal), CStr(o.Bool.FalseVal), CBool(o.Bool.Default))
 	case execution.OptionTypeString:
@@ -170,6 +173,12 @@ func satisfyingValue(c *PRNG, o execution.Option) interface{} {
 		}
 		if l == nil {
 			l = []interface{}{}
+			for _, v := range o.Multi.Values {
+				if v != "" {
+					l = append(l, v)
+					break
+				}
+			}
 		}
 		return l
 	default:
